@@ -231,7 +231,8 @@ def generate(tier, rng):
     symfiles = [(s_, f) for (s_, f, k) in allfiles if k == "emitted-syms"]
     allfiles = [(s_, f) for (s_, f, k) in allfiles]
     # corruption streams: quick uses the 6 smallest-to-median files, thorough all
-    files = sorted(allfiles, key=lambda x: len(x[1]))[:6] if quick else allfiles
+    # corruption streams: quick uses the 6 smallest files, thorough every second file by size (all files: > 350 000 cases)
+    files = sorted(allfiles, key=lambda x: len(x[1]))[:6] if quick else sorted(allfiles, key=lambda x: len(x[1]))[::2]
     # truncations
     for k, (src, f) in enumerate(files):
         lens = range(len(f)) if (not quick or k < 1) else sorted(set(rng.sample(range(len(f)), 60) + [0, 1, 3, 4, 5, len(f) - 1, len(f) - 4, len(f) - 5]))
@@ -303,7 +304,7 @@ def generate(tier, rng):
             yield case(sx(["any", q(b.hex())]), b.hex(), dict(stream="struct-body"))
     # field-level mutations of the instruction stream (opcode, function id, registers, VarArg count) with recomputed CRC
     fieldvals = [0, 1, 2, 5, 255, 256, 65535, 2 ** 30, 2 ** 30 + 1, 2 ** 31, 2 ** 31 + 1, 3 * 2 ** 30, 2 ** 32 - 1, 2 ** 32 - 4]
-    for k, (src, f) in enumerate(allfiles):
+    for k, (src, f) in enumerate(allfiles if quick else allfiles[::2]):
         payload = f[:-4]
         ioff = int.from_bytes(payload[93:101], "little"); ilen = int.from_bytes(payload[101:109], "little")
         pos = ioff; fields = []
@@ -332,7 +333,7 @@ def generate(tier, rng):
     # section-aware mutations with recomputed CRC: every field of the type section, the constant table, the constant
     # payloads (rows / cols / length prefixes, UTF-8 bytes, denominators), the symbol and dictionary entries and the header
     # offsets/lengths, set to boundary values.  The model predicts accept/reject and the outcome of the constant decoder.
-    secfiles = (sorted(allfiles, key=lambda x: len(x[1]))[:4] + symfiles[:3] + allfiles[-14:-1:3]) if quick else allfiles
+    secfiles = (sorted(allfiles, key=lambda x: len(x[1]))[:4] + symfiles[:3] + allfiles[-14:-1:3]) if quick else (allfiles[1::2] + symfiles)
     seen_f = set()
     for k, (src, f) in enumerate(secfiles):
         if f in seen_f:
